@@ -13,7 +13,7 @@ Proof. intros. apply N.leb_le. lia. Qed.
 Lemma Inv_fail s m g s' m' g' :
   Inv s m g -> s_poisoned s' = true -> s_hb s' = s_hb s ->
   (forall a, In a (g_written g) -> m_data m' a = m_data m a) -> m_max m' = m_max m ->
-  m_pages m <= m_pages m' <= m_max m ->
+  m_pages m <= m_pages m' <= max_wasm_pages ->
   g' = mkGhost (g_live g) (g_shadow g) (g_written g) true (g_void g) (m_pages m') ->
   Inv s' m' g'.
 Proof.
@@ -21,7 +21,7 @@ Proof.
   - intros a v H. rewrite D; [now apply i1|now apply (iw a v)].
   - intros a Ha. rewrite Hb. now apply il1.
   - intros p sz Hp. rewrite Hb. now apply (il2 p sz).
-  - rewrite Mx. lia.
+  - lia.
   - intros X. congruence.
 Qed.
 
@@ -203,7 +203,7 @@ Lemma Inv_alloc_ok s m g s' m' B' lv' p size :
   Inv s m g -> s_poisoned s = false -> s_poisoned s' = false -> s_hb s' = s_hb s -> s_hb s + header_size <= p ->
   Struct s' m' (alloc_ghost g p size (m_pages m')) B' lv' ->
   (forall a, In a (g_written g) -> m_data m' a = m_data m a) ->
-  m_max m' = m_max m -> m_pages m <= m_pages m' <= m_max m ->
+  m_max m' = m_max m -> m_pages m <= m_pages m' <= max_wasm_pages ->
   Inv s' m' (alloc_ghost g p size (m_pages m')).
 Proof.
   intros [i1 iw il1 il2 i2 i3 i4 i5] P P' Hb Lo S D Mx Pg. constructor; cbn [alloc_ghost g_shadow g_written g_live g_dead g_pages]; auto.
@@ -213,7 +213,7 @@ Proof.
   - intros a Ha. rewrite Hb. now apply il1.
   - intros q sz [[= <- <-]|Hq]; rewrite Hb; [exact Lo|now apply (il2 q sz)].
   - congruence.
-  - rewrite Mx. lia.
+  - lia.
   - intros _. exists B', lv'. exact S.
 Qed.
 
@@ -245,7 +245,7 @@ Theorem alloc_sound s m g size :
   step_ok (s_hb s) g (OAlloc size) ob = true /\ Inv s' m' (track (s_hb s) g (OAlloc size) ob) /\ s_hb s' = s_hb s.
 Proof.
   intros HI NV r s' m' A. cbn zeta.
-  pose proof HI as [i1 iw il1 il2 i2 i3 i4 i5]. destruct i3 as (Pg1 & Pg2).
+  pose proof HI as [i1 iw il1 il2 i2 i3 i4 i5]. pose proof i3 as Pg1.
   assert (FAIL : forall e s1, s_poisoned s1 = true -> s_hb s1 = s_hb s -> (r, s', m') = (RErr e, s1, m) ->
             step_ok (s_hb s) g (OAlloc size) (mkObs r (m_pages m')) = true /\
             Inv s' m' (track (s_hb s) g (OAlloc size) (mkObs r (m_pages m'))) /\ s_hb s' = s_hb s).
@@ -306,7 +306,7 @@ Proof.
   - (* a fresh block *)
     destruct (bump fixed (s_bumper s) (osize o + header_size) m) as [[[hp b'] m1]|e] eqn:BU.
     2:{ symmetry in A. apply (FAIL e (poison (with_last s (msize m)))); auto. }
-    destruct (bump_ok _ _ _ _ _ _ Pg1 Pg2 BU) as (-> & -> & W & G & D1 & Mx1 & Pg).
+    destruct (bump_ok _ _ _ _ _ _ Pg1 BU) as (-> & -> & W & G & D1 & Mx1 & Pg).
     rewrite write_header_ok in A by (pose proof (osize_pos o); unfold header_size in *; lia).
     cbn [encode_header s_hb s_bumper s_heads s_last s_ba] in A.
     set (hp := s_bumper s) in *.
